@@ -176,6 +176,12 @@ func usesLockFreeSync(s ast.Stmt) bool {
 		switch sel.Sel.Name {
 		case "LoadOrStore", "CompareAndSwap", "LoadAndDelete", "Swap":
 			found = true
+		case "Load", "Store":
+			// atomic.Value / atomic.Int32 / sync.Map: a Load followed by a separate Store is the classic
+			// non-atomic pair (the package has no other methods of these names)
+			if len(call.Args) <= 2 {
+				found = true
+			}
 		case "Do":
 			if len(call.Args) == 1 {
 				found = true
